@@ -27,6 +27,7 @@ ENV = dict(os.environ)
 ENV.update({"GOFLAGS": "-mod=mod", "GOPROXY": "off", "GOSUMDB": "off", "GOTOOLCHAIN": "local", "CGO_ENABLED": ENV.get("MC_CGO", "0")})
 
 LEVEL = "model_checking"
+WORK_LIMIT = 400000  # mcrt.WorkLimit: function entries + loop iterations of the instrumented module per execution
 
 
 def die(msg, code=2):
@@ -218,11 +219,12 @@ def run_workers(worker, prop, tier, n, scratch, seed, deadline, extra_args=""):
 
 def merge(results):
     m = {"inputs": 0, "execs": 0, "choice_points": 0, "nontrivial": 0, "validated": 0, "outcomes": set(), "violations": {},
-         "samples": [], "caps": [], "counters": {}, "bounds": {}, "notes": [], "exhaustive": True, "inputs_total": 0}
+         "samples": [], "caps": [], "counters": {}, "bounds": {}, "notes": [], "exhaustive": True, "inputs_total": 0, "max_work": 0}
     for r in results:
         for k in ("inputs", "execs", "choice_points", "nontrivial", "validated"):
             m[k] += r.get(k) or 0
         m["inputs_total"] = max(m["inputs_total"], r.get("inputs_total") or 0)
+        m["max_work"] = max(m["max_work"], r.get("max_work") or 0)
         m["outcomes"].update(r.get("outcomes") or [])
         for g in r.get("violations") or []:
             t = m["violations"].setdefault(g["signature"], {"signature": g["signature"], "count": 0, "what": g["what"], "replays": []})
@@ -339,6 +341,7 @@ def check(prop, tier, nworkers, keep, deadline):
                 "bounds": m["bounds"], "caps_hit": m["caps"], "counters": m["counters"], "notes": m["notes"],
                 "known_findings_matched": known_matched,
                 "instrumentation": info, "workers": nworkers,
+                "max_work_per_execution": m["max_work"], "work_limit": WORK_LIMIT,
             },
             "assumptions": spec_.get("assumptions", []) + COMMON_ASSUMPTIONS,
             "wall_s": round(wall, 2),
@@ -349,8 +352,8 @@ def check(prop, tier, nworkers, keep, deadline):
         if not os.environ.get("MC_NO_EVIDENCE"):
             os.makedirs(os.path.join(VERIF, "evidence"), exist_ok=True)
             json.dump(ev, open(os.path.join(VERIF, "evidence", prop + ".json"), "w"), indent=1)
-        print("mc: %s %s: inputs=%d executions=%d choice_points=%d distinct_outcomes=%d nontrivial=%d exhaustive=%s wall=%.1fs (build %.1fs)" % (
-            prop, tier, m["inputs"], m["execs"], m["choice_points"], len(m["outcomes"]), m["nontrivial"], m["exhaustive"], wall, info["build_s"]))
+        print("mc: %s %s: inputs=%d executions=%d choice_points=%d distinct_outcomes=%d nontrivial=%d exhaustive=%s max_work=%d wall=%.1fs (build %.1fs)" % (
+            prop, tier, m["inputs"], m["execs"], m["choice_points"], len(m["outcomes"]), m["nontrivial"], m["exhaustive"], m["max_work"], wall, info["build_s"]))
         for c in m["caps"]:
             print("mc: cap: " + c)
         shown = 0
